@@ -163,11 +163,11 @@ known("KF-C18-06", "C18", "util-bytes", "Indent", r"bytes-differ:missing-trailin
       'Indent(dst, "[1]   ", "", " ") drops the trailing blanks that encoding/json.Indent keeps',
       "internal/encoder/indent.go: output ends with the value", "another difference that consists only of missing trailing whitespace",
       "cosmetic; upstream behaviour since the first release")
-known("KF-C18-07", "C18", "util-htmlesc", "HTMLEscape", "not-equivalent", r"object:(members-reordered|duplicate-keys-dropped-or-members-lost)",
-      'HTMLEscape(dst, `{"b":1,"ab":2}`) = `{"ab":2,"b":1}`', "json.go HTMLEscape decodes into interface{} and re-marshals: map members come out sorted",
-      "other re-ordering of members by HTMLEscape", "needs a token-level escaper instead of decode/encode")
-known("KF-C18-08", "C18", "util-htmlesc", "HTMLEscape", "not-equivalent", r"output-empty:float64-range-number",
-      'HTMLEscape(dst, "1e999") writes nothing', "json.go HTMLEscape: decode error is swallowed", "empty output for other texts with out-of-range numbers", "as KF-C18-07")
+for n, ctx, same in C18_VALID:
+    known("KF-C18-H" + n, "C18", "util-htmlesc", "HTMLEscape", "wrote-on-invalid-text", ctx,
+          "HTMLEscape appends the escaped text although encoding/json.Valid rejects it (%s): it writes whatever Valid accepts; same root cause as %s" % (ctx, same),
+          "json.go HTMLEscape asks Valid, the stream decoder into interface{}; see " + same, "see " + same, "see " + same)
+fixed("FX-C18-03", "C18", "dc2373c", "HTMLEscape(dst, `{\"b\":1,\"ab\":2}`) = `{\"ab\":2,\"b\":1}`, duplicate keys were dropped, and HTMLEscape(dst, \"1e999\") wrote nothing: the text was decoded into interface{} and re-marshalled (was KF-C18-07, KF-C18-08)")
 
 # ------------------------------------------------------------------ C01 (encoder differential)
 WILD = r"(token:.+|panic:.+|fatal:.+|checkptr:.+|asan:.+|array-len|missing-member|extra-member|ok-vs-err|err-vs-ok|marshaler-output-differs|excessive-allocation|malformed-output|order:other)"
